@@ -331,6 +331,11 @@ class OpsMixin(object):
         if inst is not None and inst.label is not None:
             # attribute of an opaque typed object not set by __init__
             return Opaque(("attr", inst.label, attr))
+        closed = all(isinstance(c, ClassInfo) or (isinstance(c, ExternalClass) and c.name.split(".")[-1] == "object") for c in ci.mro()) \
+            and ci.lookup("__getattr__") is None and ci.lookup("__getattribute__") is None
+        if inst is not None and closed and not any(isinstance(v, Phi) for v in inst.attrs.values() if False):
+            # a concrete object of a class whose whole hierarchy is in the package: the attribute does not exist
+            raise RaiseSignal(ExcV(ExtV("builtins.AttributeError"), [Const("'%s' object has no attribute '%s'" % (ci.name, attr))]), node)
         self.err(node, "%s has no attribute %s" % (ci.name, attr))
 
     def hasattr(self, base, attr):
@@ -650,6 +655,8 @@ class OpsMixin(object):
             a = self.with_path(fn.cond, True, lambda: self.call(fn.a, args, kwargs, node, env))
             b = self.with_path(fn.cond, False, lambda: self.call(fn.b, args, kwargs, node, env))
             return make_phi(fn.cond, a, b)
+        if isinstance(fn, (Const, ListV, DictV)) or (isinstance(fn, Num) and fn.const() is not None):
+            raise RaiseSignal(ExcV(ExtV("builtins.TypeError"), [Const("object is not callable")]), node)
         self.err(node, "call of %r" % (fn,))
 
     def call_deriv(self, dv, args, node):
